@@ -13,7 +13,7 @@ ID = 'C10'
 LEVEL = 'exploration'
 N = {'quick': 20000, 'thorough': 500000}
 RULE = ('one generated election (all rules x accepted options; multipliers >= 2 forced) in two presentations: canonical, and lines permuted + '
-        'multipliers split/merged + random white space / comments / nicknames; oracle: json(), report() and dump() byte-identical; '
+        'multipliers split/merged + random white space (LF, CRLF, bare CR) / comments / nicknames / option order; 3 % narrow-surplus chains; oracle: json(), report() and dump() byte-identical; '
         'non-trivial = the presentations differ in line order and grouping and the count has a fractional transfer value or Meek iteration')
 TECHNIQUE = 'property-based testing: metamorphic relation (re-presented ballot file => byte-identical record, report and dump)'
 LEVEL_TEXT = 'generated pairs of presentations of one election compared byte for byte on all three renderings'
